@@ -253,14 +253,25 @@ func (st *ServerStream) readerAdd(
 	case ProtocolUDP:
 		// check whether UDP ports and IP are already assigned to another reader
 		for r := range st.readers {
-			if r.setuppedTransport.Protocol == ProtocolUDP &&
-				r.author.ip().Equal(ss.author.ip()) &&
-				r.author.zone() == ss.author.zone() {
-				for _, rt := range r.setuppedMedias {
-					if rt.udpRTPReadPort == clientPorts[0] {
-						return liberrors.ErrServerUDPPortsAlreadyInUse{Port: rt.udpRTPReadPort}
+			err := func() error {
+				// setuppedTransport and setuppedMedias are written
+				// by the routine of the other session during SETUP.
+				r.propsMutex.RLock()
+				defer r.propsMutex.RUnlock()
+
+				if r.setuppedTransport.Protocol == ProtocolUDP &&
+					r.author.ip().Equal(ss.author.ip()) &&
+					r.author.zone() == ss.author.zone() {
+					for _, rt := range r.setuppedMedias {
+						if rt.udpRTPReadPort == clientPorts[0] {
+							return liberrors.ErrServerUDPPortsAlreadyInUse{Port: rt.udpRTPReadPort}
+						}
 					}
 				}
+				return nil
+			}()
+			if err != nil {
+				return err
 			}
 		}
 
